@@ -201,6 +201,10 @@ fn cact(a: &CustomAction) -> Result<String, String> {
         // on-press-delay / on-release-delay put the thread to sleep for real time; in the virtual
         // time of the harness and of the model they change nothing
         CustomAction::Delay(_) | CustomAction::DelayOnRelease(_) => "oth".into(),
+        // [dyn] dynamic macros (model: Model/KanataDyn.lean, Model/KanataDynTick.lean)
+        CustomAction::DynamicMacroRecord(id) => format!("dmr {id}"),
+        CustomAction::DynamicMacroRecordStop(n) => format!("dms {n}"),
+        CustomAction::DynamicMacroPlay(id) => format!("dmp {id}"),
         // [seq] sequence mode is inside the kanata-level model (Model/KanataSeq.lean)
         CustomAction::SequenceLeader(timeout, mode) => format!("sl {} {}", timeout, crate::kanseq::mode_num(mode)),
         CustomAction::SequenceCancel => "sc".into(),
@@ -325,7 +329,16 @@ pub fn expand(line: &str) -> String {
     match parse_cfg_files(&p.cfg_text) {
         Err(_) => format!("{}X {} REJECT {}", p.tag, p.dbg as u8, p.hist_str),
         Ok(c) => match serialise_kanata(&c, &p.hist) {
-            Ok(s) => format!("{}X {} {} {}", p.tag, p.dbg as u8, s, p.hist_str),
+            Ok(s) => {
+                // [dyn] options and hash-set order hints for configurations with dynamic macros: the
+                // ` DYN …` section goes after the kanata state (incl. SEQ) and before the `CHV2` section
+                let d = crate::kandyn::dyn_section(&c, &p.cfg_text, &p.hist, &s);
+                let s = match s.find(" CHV2 ") {
+                    Some(i) if !d.is_empty() => format!("{}{}{}", &s[..i], d, &s[i..]),
+                    _ => format!("{s}{d}"),
+                };
+                format!("{}X {} {} {}", p.tag, p.dbg as u8, s, p.hist_str)
+            }
             Err(why) => format!("{}X {} UNSUPPORTED {} {}", p.tag, p.dbg as u8, why, p.hist_str),
         },
     }
@@ -401,6 +414,7 @@ pub struct Runner {
     pub vt: u64,
     pub out: Vec<String>,
     ms_elapsed: u16,
+    pub dyn_obs: crate::kandyn::Obs, // [dyn]
     /// chv2: the one-shot list was full at some point while chords v2 is configured (the one path
     /// the model's wrapper does not mirror): the case is answered `unsupported oneshot-evict-chv2`
     pub risk: bool,
@@ -409,7 +423,7 @@ pub struct Runner {
 impl Runner {
     pub fn new(cfg_text: &str) -> Result<Self, String> {
         let k = Kanata::new_from_str(cfg_text, cfg_files(cfg_text)).map_err(|e| format!("{e:?}"))?;
-        Ok(Runner { k, names: keycode_names(), seen: 0, vt: 0, out: vec![], ms_elapsed: 0, risk: false })
+        Ok(Runner { k, names: keycode_names(), seen: 0, vt: 0, out: vec![], ms_elapsed: 0, risk: false, dyn_obs: Default::default() })
     }
     /// chv2: layout digest, extended by the chords-v2 state when chords v2 is configured
     pub fn digest(&self) -> String {
@@ -441,12 +455,14 @@ impl Runner {
     pub fn tick(&mut self) {
         self.vt += 1;
         self.k.tick_ms(1, &None).unwrap();
+        self.dyn_obs.observe(&self.k, self.vt - 1); // [dyn]
         self.collect();
         self.note_risk(); // chv2
     }
     pub fn input(&mut self, code: u16, v: KeyValue) {
         let osc = OsCode::from_u16(code).expect("harness: not an OsCode");
         let _ = self.k.handle_input_event(&KeyEvent { code: osc, value: v });
+        self.dyn_obs.observe(&self.k, self.vt); // [dyn]
         // what a repeat event emits is tagged, so that it can be told from what a tick emits
         self.collect_tag(if v == KeyValue::Repeat { "R" } else { "" });
         self.note_risk(); // chv2
@@ -522,13 +538,13 @@ pub fn run_hist(r: &mut Runner, hist: &[KEv], loop_mode: bool, dbg: bool) {
 pub fn eval(line: &str) -> String {
     let p = parse_kline(line);
     OVR_TEXT.with(|t| *t.borrow_mut() = p.cfg_text.clone());
+    let uses_dyn; // [dyn]
     match parse_cfg_files(&p.cfg_text) {
         Err(_) => return "rej".into(),
-        Ok(c) => {
-            if let Err(why) = serialise_kanata(&c, &p.hist) {
-                return format!("unsupported {why}");
-            }
-        }
+        Ok(c) => match serialise_kanata(&c, &p.hist) {
+            Err(why) => return format!("unsupported {why}"),
+            Ok(s) => uses_dyn = crate::kandyn::uses_dyn(&s), // [dyn]
+        },
     }
     let loop_mode = p.hist.iter().any(|e| matches!(e, KEv::Gap(_)));
     let mut r = match Runner::new(&p.cfg_text) {
@@ -543,6 +559,9 @@ pub fn eval(line: &str) -> String {
     let mut out = r.out.clone();
     out.push(format!("I idle={}", idle as u8));
     out.push(format!("D {}", r.digest())); // chv2
+    if uses_dyn {
+        out.push(crate::kandyn::digest(&r.k)); // [dyn]
+    }
     let res = out.join(" ");
     if loop_mode {
         // the same history with the loop ticking through every gap
@@ -554,6 +573,9 @@ pub fn eval(line: &str) -> String {
         }
         let mut o2 = r2.out.clone();
         o2.push(format!("I idle={}", r2.k.is_idle() as u8));
+        if uses_dyn {
+            o2.push(crate::kandyn::digest(&r2.k)); // [dyn]
+        }
         format!("{res} || STEP {}", o2.join(" "))
     } else {
         res
